@@ -176,6 +176,10 @@ type c23Case struct {
 	epic        bool
 	part        string
 	description string
+	// topology reloads (ifstate.Interfaces.Update) applied to the extender's interface table before the judged
+	// extension; extendFirst: one extension is done with the original table before the reloads
+	topo        []map[uint16]ifstate.InterfaceInfo
+	extendFirst bool
 }
 
 func TestC23(t *testing.T) {
@@ -186,7 +190,9 @@ func TestC23(t *testing.T) {
 		"{0,1,63,254,255} x timestamp-now {0,-10s,-1h,-6h,+10s} x signer sets (one signer: NotAfter-(ts+max lifetime) " +
 		"in {-unit-1s,-1s,0,+1s,+1d} x NotBefore-ts in {-1h,0,+1s}; two signers: all ordered pairs of the NotAfter deltas, second on " +
 		"P-384); part D: every ordered list of 2 and 3 signers (own key per position) over {covering, starting 1s after the " +
-		"timestamp} x NotAfter-(ts+max lifetime) {-1s,+1s,+1d} (quick: every third 3-list). One case = one Extend call judged field by field; non-trivial = every case (all inputs pairwise different)"
+		"timestamp} x NotAfter-(ts+max lifetime) {-1s,+1s,+1d} (quick: every third 3-list); part E: every sequence of 1-2 (thorough 3) topology reloads (ifstate.Interfaces.Update) " +
+		"over 10 table variants (neighbour / peer re-homed, MTUs, link types, remote interface id, interface removed) with and " +
+		"without an extension before the reloads. One case = one Extend call judged field by field; non-trivial = every case (all inputs pairwise different)"
 	synctest.Test(t, func(t *testing.T) { c23Run(r) })
 	r.Finish(5)
 }
@@ -376,6 +382,85 @@ func c23Run(r *mc.Run) {
 		}
 	}
 
+	// part E: topology reload histories. Variants of the interface table of the AS under test; every sequence of 1 or 2
+	// (thorough: 3) reloads, with and without an extension before the reloads; the judged extension must reflect the
+	// table of the LAST reload.
+	{
+		variant := func(l int, v int) map[uint16]ifstate.InterfaceInfo {
+			m := c23Interfaces(l)
+			set := func(id uint16, f func(*ifstate.InterfaceInfo)) {
+				if info, ok := m[id]; ok {
+					f(&info)
+					m[id] = info
+				}
+			}
+			switch v {
+			case 0: // unchanged
+			case 1:
+				set(c23IfChild, func(i *ifstate.InterfaceInfo) { i.IA = c23IA(50) })
+			case 2:
+				set(c23IfPeerA, func(i *ifstate.InterfaceInfo) { i.IA = c23PeerIA(77, 3) })
+			case 3:
+				set(c23IfChild, func(i *ifstate.InterfaceInfo) { i.MTU = 1280 })
+				set(c23IfParent, func(i *ifstate.InterfaceInfo) { i.MTU = 1290 })
+				set(c23IfPeerA, func(i *ifstate.InterfaceInfo) { i.MTU = 1270 })
+			case 4:
+				set(c23IfChild, func(i *ifstate.InterfaceInfo) { i.LinkType = topology.Core })
+				set(c23IfPeerB, func(i *ifstate.InterfaceInfo) { i.LinkType = topology.Child })
+			case 5:
+				delete(m, c23IfChild)
+			case 6:
+				delete(m, c23IfPeerA)
+			case 7:
+				set(c23IfPeerA, func(i *ifstate.InterfaceInfo) { i.RemoteID = 55 })
+			case 8:
+				set(c23IfParent, func(i *ifstate.InterfaceInfo) { i.IA = c23IA(60); i.MTU = 1222 })
+			case 9:
+				set(c23IfChild, func(i *ifstate.InterfaceInfo) { i.IA = c23IA(51); i.MTU = 1301 })
+				set(c23IfPeerA, func(i *ifstate.InterfaceInfo) { i.IA = c23PeerIA(78, 3); i.MTU = 1302 })
+				set(c23IfPeerB, func(i *ifstate.InterfaceInfo) { i.IA = c23PeerIA(79, 4); i.MTU = 1303 })
+			}
+			return m
+		}
+		const nVar = 10
+		var seqs [][]int
+		for a := 0; a < nVar; a++ {
+			seqs = append(seqs, []int{a})
+			for b := 0; b < nVar; b++ {
+				seqs = append(seqs, []int{a, b})
+				if mc.Thorough() {
+					for c := 0; c < nVar; c++ {
+						seqs = append(seqs, []int{a, b, c})
+					}
+				}
+			}
+		}
+		for _, l := range []int{0, 2} {
+			for _, term := range []bool{false, true} {
+				if term && l == 0 {
+					continue
+				}
+				for _, first := range []bool{false, true} {
+					for _, sq := range seqs {
+						c := c23Case{l: l, ts: now.Add(-10 * time.Second), ingress: c23IfParent, egress: c23IfChild, peers: []uint16{c23IfPeerA, c23IfPeerB},
+							maxExp: 63, signers: []c23Signer{longLived("local")}, part: "topology-reload", extendFirst: first,
+							description: fmt.Sprintf("reload variants %v, extension before the reloads: %v", sq, first)}
+						if l == 0 {
+							c.ingress = 0
+						}
+						if term {
+							c.egress = 0
+						}
+						for _, v := range sq {
+							c.topo = append(c.topo, variant(l, v))
+						}
+						cases = append(cases, c)
+					}
+				}
+			}
+		}
+	}
+
 	nonMaximal, notLatest := 0, 0
 	for ci, c := range cases {
 		ps, err := prior(c.ts, c.l)
@@ -388,6 +473,30 @@ func c23Run(r *mc.Run) {
 			priorPB = &cppb.PathSegment{SegmentInfo: ps.Info.Raw}
 		}
 		ext := c23Extender(c.l, c.signers, c.maxExp, c.epic)
+		remoteOK := map[uint16]map[uint16]bool{} // remote interface ids an interface may report (a reload keeps the learned one)
+		curTopo := c23Interfaces(c.l)
+		for id, info := range curTopo {
+			remoteOK[id] = map[uint16]bool{info.RemoteID: true}
+		}
+		if c.extendFirst {
+			if warm, err := prior(c.ts, c.l); err == nil {
+				eg := uint16(c23IfChild)
+				_ = ext.Extend(ctx, warm, c.ingress, eg, c.peers)
+			}
+		}
+		for _, m := range c.topo {
+			ext.Intfs.Update(m)
+			next := map[uint16]map[uint16]bool{}
+			for id, info := range m {
+				if old, ok := remoteOK[id]; ok {
+					old[info.RemoteID] = true
+					next[id] = old
+				} else {
+					next[id] = map[uint16]bool{info.RemoteID: true}
+				}
+			}
+			remoteOK, curTopo = next, m
+		}
 		name := fmt.Sprintf("%s: prior=%d ts-now=%v in=%d eg=%d peers=%v maxExp=%d epic=%v %s", c.part, c.l, c.ts.Sub(now), c.ingress, c.egress,
 			c.peers, c.maxExp, c.epic, c.description)
 		var eerr error
@@ -402,7 +511,7 @@ func c23Run(r *mc.Run) {
 		// ---- reference expectations ----
 		first := c.l == 0
 		posOK := (c.ingress == 0) == first && !(c.ingress == 0 && c.egress == 0)
-		ifs := c23Interfaces(c.l)
+		ifs := curTopo
 		egInfo, egKnown := ifs[c.egress]
 		egOK := c.egress == 0 || (egKnown && !egInfo.IA.IsWildcard())
 		_, inKnown := ifs[c.ingress]
@@ -480,6 +589,13 @@ func c23Run(r *mc.Run) {
 		if hf.Ingress != uint64(c.ingress) || hf.Egress != uint64(c.egress) {
 			viol("hop-interfaces-wrong", fmt.Sprintf("signed hop field %d>%d", hf.Ingress, hf.Egress))
 		}
+		wantInMTU := uint32(0)
+		if c.ingress != 0 {
+			wantInMTU = uint32(ifs[c.ingress].MTU)
+		}
+		if body.Mtu != 1472 || (inKnown || c.ingress == 0) && body.HopEntry.IngressMtu != wantInMTU {
+			viol("mtu-wrong", fmt.Sprintf("AS MTU %d (configured 1472), ingress MTU %d (interface table: %d)", body.Mtu, body.HopEntry.IngressMtu, wantInMTU))
+		}
 		// signature: which offered signer made it, over info || earlier entries and signatures
 		ad := [][]byte{outPB.SegmentInfo}
 		for i := 0; i < c.l; i++ {
@@ -552,7 +668,7 @@ func c23Run(r *mc.Run) {
 				pe := body.PeerEntries[pi]
 				info := ifs[p]
 				if pe.HopField == nil || pe.HopField.Ingress != uint64(p) || pe.HopField.Egress != uint64(c.egress) ||
-					addr.IA(pe.PeerIsdAs) != info.IA || pe.PeerInterface != uint64(info.RemoteID) {
+					addr.IA(pe.PeerIsdAs) != info.IA || !remoteOK[p][uint16(pe.PeerInterface)] || pe.PeerMtu != uint32(info.MTU) {
 					viol("peer-entry-wrong", fmt.Sprintf("peer entry %d: %v", pi, pe))
 					continue
 				}
